@@ -9,9 +9,10 @@ import (
 )
 
 // applySub performs one sub-operation on enc; returns (error class, resulting shard set, extra verdict)
-//   r <size> <seed> <mode> <E> <req> <form>
-//   e <size> <seed>
-//   v <size> <seed> <flipShard> <flipOff>
+//
+//	r <size> <seed> <mode> <E> <req> <form>
+//	e <size> <seed>
+//	v <size> <seed> <flipShard> <flipOff>
 func applySub(enc rs.Encoder, ref rs.Encoder, d, p int, f []string) (string, [][]byte, string) {
 	switch f[0] {
 	case "r":
